@@ -96,7 +96,7 @@ def run(ctx):
     from perceval.components import Detector
     rng = ctx.rng
     BS_ = pcvl.BasicState
-    N = ctx.n(110, 1500)
+    N = ctx.n(150, 1500)
     cases = []
     for i in range(N):
         r = rng.fork(i)
@@ -135,7 +135,7 @@ def run(ctx):
         level = r.choice(["processor", "processor", "simulator"])
         backend = r.choice(["SLOS", "Naive", "SLAP"])
         prec = 0
-        if r.chance(1, 4) and sum(inp) >= 2 and nh >= 1:
+        if r.chance(1, 3) and sum(inp) >= 2 and nh >= 1:
             # an engine that restricts its output space (mask) serving a lossy, partly distinguishable source: the input
             # mixture then holds states of several photon numbers and the herald mask is re-derived for each of them
             backend = r.choice(["Naive", "SLAP"])
@@ -222,7 +222,7 @@ def run(ctx):
                 sim.keep_heralds(cs["keep"])
                 res = sim.probs_svd(svd, p.detectors if cs["thr"] else None)
                 keep = cs["keep"]
-            if cond_cost(m, mix) > (6000 if ctx.quick() else 30000):
+            if cond_cost(m, mix) > (12000 if ctx.quick() else 60000):
                 ctx.count("generated-but-too-costly-for-the-exact-model")
                 continue
             reqs.append((40, [m, c.U, mix, [[h, v] for h, v in heralds.items()], ps_tree_abs, F, keep, thr]))
